@@ -74,7 +74,7 @@ CHECKS = {
         engine="comp",
         category="exploration",
         technique="exhaustive enumeration (iterative deepening) and random generation of waiter/notifier interleavings at lock-protected-operation granularity, single-threaded with counting wakers",
-        text="16 hand-written waiter/notifier protocols (SendWaker/SendWakers incl. the external condition check as its own step, AsyncDeque, Receiving, ArcKeys / 0-RTT / 1-RTT keys, Parameters, LocalStreamIds, CidCell, Wakers fan-out, crypto reader/writer, DatagramReader, stream Reader/Writer, accept and open stream) are wrapped as step machines; every schedule up to the per-protocol bound (<=3 polls per waiter, <=3 actions per notifier; 3.7M schedules quick, 60M thorough) plus random schedules up to 40/80 steps. Oracle at quiescence: no waiter is Pending with a never-woken waker while a re-poll would make progress; after close/fail every sleeper was woken.",
+        text="16 hand-written waiter/notifier protocols (SendWaker/SendWakers incl. the external condition check as its own step, AsyncDeque, Receiving, ArcKeys / 0-RTT / 1-RTT keys, Parameters, LocalStreamIds, CidCell, Wakers fan-out, crypto reader/writer, DatagramReader, stream Reader/Writer, accept and open stream) are wrapped as step machines; every schedule up to the per-protocol bound (<=3 polls per waiter, <=3 actions per notifier; 3.7M schedules quick, 60M thorough) plus random schedules up to 40/80 steps. For Wakers::combine_with (the fan-out waker of the shared UDP socket) the readiness event is also placed inside the call, after the inner poll has registered the combined waker. Oracle at quiescence: no waiter is Pending with a never-woken waker while a re-poll would make progress; after close/fail every sleeper was woken.",
         note="Granularity is the property's own (individual lock-protected operations); interleavings inside one lock-free operation and real thread schedules are out of reach of this technique. qconnection-level protocols (AntiAmplifier::balance, Path buffers) are not linked into this harness.",
         design_ref="DESIGN.md §3 C16",
     ),
@@ -138,7 +138,7 @@ CHECKS = {
         engine="comp",
         category="exploration",
         technique="model-based history testing of ArcCC against an executable RFC 9002 reference model (paused clock, state snapshot hook), with exhaustive short histories",
-        text="Histories of sends (three spaces, sizes, ack-eliciting/in-flight flags), ACK frames (ranges, delays, ECN), clock advances and ticks drive the real ArcCC through its Transport trait; after every op a hook snapshot (cwnd, bytes_in_flight, recovery start, pto_count, timers, outstanding packets) is compared with what RFC 9002 permits: loss only with a larger acked number and packet/time threshold, acked never lost, in-flight packets always covered by a timer, PTO doubling and abandonment, cwnd >= 2 datagrams, at most one reduction per round trip, growth only outside recovery, bytes_in_flight accounting, quota vs window. All words <=5 (quick) / 7 (thorough) over an 8-letter alphabet exhaustively, 162k / 2.1M random histories.",
+        text="Histories of sends (three spaces, sizes, ack-eliciting/in-flight flags), ACK frames (ranges, delays, ECN), clock advances and ticks drive the real ArcCC through its Transport trait; after every op a hook snapshot (cwnd, bytes_in_flight, recovery start, pto_count, timers, outstanding packets) is compared with what RFC 9002 permits: loss only with a larger acked number and packet/time threshold, acked never lost, in-flight packets always covered by a timer, PTO doubling and abandonment, pto_count reset by an ACK only once the peer has validated the address (RFC 9002 A.7) and always then, cwnd >= 2 datagrams, at most one reduction per round trip, growth only outside recovery, bytes_in_flight accounting, quota vs window. All words <=5 (quick) / 7 (thorough) over an 8-letter alphabet exhaustively, 162k / 2.1M random histories.",
         note="'Eventually' is checked only in bounded form. The implementation may be more conservative than RFC 9002, never less. Seven confirmed divergences are listed as known findings with narrow signatures; everything else is still asserted behind them.",
         design_ref="DESIGN.md §3 C13",
     ),
@@ -146,7 +146,7 @@ CHECKS = {
         engine="comp",
         category="exploration",
         technique="model-based property testing of local/remote connection-ID tables over a real QuicRouter, with complete enumeration of short remote histories",
-        text="Local: 1-5 connections sharing one real router, retire frames in any order (duplicate, unissued), limit changes, handle and connection drops; after every op every ID ever issued is routed with a real parsed packet and must reach exactly its own live connection or nothing. Remote: NEW_CONNECTION_ID frames (reordered, duplicated, any retire_prior_to) interleaved with up to 6 paths borrowing/releasing IDs: one ID per path, no sharing, retire-prior-to honoured, exactly one RETIRE per abandoned ID, limit enforced. All 18-op-alphabet sequences of depth 4 (quick) / 5 (thorough) + 520k / 7M random histories.",
+        text="Local: 1-5 connections sharing one real router, retire frames in any order (duplicate, unissued), limit changes, handle and connection drops; after every op every ID ever issued is routed with a real parsed packet and must reach exactly its own live connection or nothing. Remote: NEW_CONNECTION_ID frames (reordered, duplicated, any retire_prior_to) interleaved with up to 6 paths borrowing/releasing IDs: one ID per path, no sharing, retire-prior-to honoured, exactly one RETIRE per abandoned ID, limit enforced. All 18-op-alphabet sequences of depth 4 (quick) / 5 (thorough) + 520k / 7M random histories. Stage router-threads: 300 (12k) cases in which 2-4 real threads (the receive tasks of several interfaces) deliver first-flight packets for destination connection IDs the router does not know yet through QuicRouter::deliver, with a connectless handler that registers the route synchronously as QuicListeners::try_accept_connection does: exactly one connection per new ID, and every packet for it in that connection's queue (interleaving chosen by the operating system: exact oracle, probabilistic detection).",
         note="Sequence numbers bounded to a small range (unbounded-value cost is C04). Which free ID goes to which path is not predicted, only invariants are asserted.",
         design_ref="DESIGN.md §3 C14",
     ),
